@@ -602,3 +602,36 @@ def update_writes_back(chk, ctx):
             ok = bool(rets) and all(g.dominates(g.node_of(wb[0]), g.node_of(r)) for r in rets)
         chk.ob("C20.R8", "%s UpdateStateMachine assigns the record back under its ARN before answering 200" % mn, ok, "", key="%s.aws_api_UpdateStateMachine | no write-back of the updated record" % mn, where=up.where(),
                message="JSONStore persists in __setitem__: updating the dictionary it returned changes memory only, so the new definition is gone after a restart")
+
+
+# ---------------------------------------------------------------------------------------------------------------------
+# C05.R8: check_pending_results acknowledges every held branch event and deletes the join state unless a terminated group still has
+# slots outstanding - so it may only be called where the fan-out (or the execution) is really being torn down.  Instances confirmed by reading.
+CPR_CALLERS = {
+    "StateEngine.end_execution": ("execution_failed", "the execution has FAILED: nothing will be joined any more"),
+    "StateEngine.branch_has_terminated": ("has_terminated", "this event belongs to a terminated fan-out"),
+    "StateEngine.notify.handle_terminal_state": ("task_terminated", "a cancelled Task of a terminated fan-out reports back"),
+    "StateEngine.notify.handle_error": ("state.get('Type') in ('Parallel', 'Map')", "the state being retried is the fan-out state itself, whose branches were terminated"),
+}
+
+
+def tidy_up_callers(chk, ctx):
+    se = ctx.mod("state_engine")
+    n = 0
+    for q, f in sorted(se.funcs.items()):
+        for c in body_nodes(f):
+            if not (isinstance(c, ast.Call) and callname(c) == "self.check_pending_results"):
+                continue
+            n += 1
+            want = CPR_CALLERS.get(q)
+            conj = []
+            for i, arm in enclosing_ifs(se, c, f.node):
+                if arm == "body":
+                    t = i.test
+                    conj += [norm(v) for v in (t.values if isinstance(t, ast.BoolOp) and isinstance(t.op, ast.And) else [t])]
+            ok = want is not None and want[0] in conj
+            chk.ob("C05.R8", "%s tears the join state down only under `%s`" % (q, want[0] if want else "?"), ok, "guards: %s" % conj,
+                   key="%s | check_pending_results called without the guard `%s` (guards: %s)" % (q, want[0] if want else "- not a confirmed caller -", conj), where=se.line(c),
+                   message="check_pending_results acknowledges the held events of every branch and deletes the join state when no group is terminated: called while sibling branches are "
+                           "still running or already finished (e.g. for a Task retried inside a Map iteration) it discards their results and the join never completes")
+    chk.floor("C05.R8", n, 4, "call sites of check_pending_results")
